@@ -1505,6 +1505,14 @@ func (w *World) genLongHash(c *EvalCase) {
 
 // GenEval produces one evaluation case.
 func GenEval(r *Rng, p *Profile) *EvalCase {
+	c := genEvalCase(r, p)
+	// drawn last, so that nothing else about the case depends on it: a nil entry at the head of the option list (an optional
+	// collaborator that was left unset) is skipped, and everything after it still applies
+	c.NilOptionFirst = r.P(0.12)
+	return c
+}
+
+func genEvalCase(r *Rng, p *Profile) *EvalCase {
 	w := &World{r: r, p: p}
 	w.genCtx()
 	c := &EvalCase{Ctx: w.ctx}
